@@ -9,7 +9,7 @@ P = {
  "C02": ("exploration", "boundary monitor on nbdime.diff/patch with type-strict canonical JSON + independent reference patcher; exhaustive small spaces + random, chained (patch result diffed again), JSON-transported diffs, long documents; two shards under python -O",
          "Exhaustive for the enumerated small spaces (lists<=N, strings<=N, dicts, nestings), sampled beyond; no claim outside executions observed.",
          "Reference patcher vmon/refdiff.py encodes docs/source/diffing.rst."),
- "C03": ("exploration", "never-raises monitor (M-NOEXC) on merge_notebooks over generated triples (40 classes + exhaustive degenerate documents) x strategy combinations x PATH variants (git / diff3 / diff only / none / directory with blanks) x user git configurations (conflict styles, unparsable); every fifth merge called from a worker thread, one in six at log level DEBUG",
+ "C03": ("exploration", "never-raises monitor (M-NOEXC) on merge_notebooks over generated triples (37 classes + exhaustive degenerate documents) x strategy combinations x PATH variants (git / diff3 / diff only / none / directory with blanks) x user git configurations (conflict styles, unparsable); every fifth merge called from a worker thread, one in six at log level DEBUG",
          "Held on the merges executed; arms of the chunk switch reached are counted.", "Inputs valid by self-check; args produced by the real nbmerge parser."),
  "C04": ("exploration", "jsonschema oracle (nbformat's per-minor schema) on every merged notebook of the C03 stream, all minors",
          "Held on the merges executed.", "nbformat's shipped schema files are the definition of validity."),
